@@ -40,5 +40,6 @@ def fam_targets(rng, tier):
     return fam
 
 
-run = _sim.make("C06", 6, 20, ("C06", "C05"), extra_fams=[fam_targets])
+FEATS = [{"period_filter"}, {"filter"}, set(), {"constraint"}, {"period_filter", "constraint"}, {"stochastic"}, {"mixed_discrete_choices", "filter"}]
+run = _sim.make("C06", 6, 24, ("C06", "C05"), extra_fams=[fam_targets], features=FEATS, on_grid_prob=0.75)
 matches_signature, replay_known, replay = _sim.matches_signature, _sim.replay_known, _sim.replay
